@@ -243,6 +243,8 @@ def crash_scenario(st, scen, mode):
                 tree = sc.read_tree(os.path.join(kd, 'base'))
                 st.cleanup_traces(kd)
                 v = st.oracle(scen, tdir, kd, 'crash')
+                if not v.get('problems') and scen.startswith('update') and 'tmp-is-file' not in scen:
+                    v['followup'] = followup_after_crash(st, scen, kd)
                 shutil.rmtree(kd, ignore_errors=True)
                 return i, s, True, tree, v
         shutil.rmtree(kd, ignore_errors=True)
@@ -263,6 +265,14 @@ def crash_scenario(st, scen, mode):
                 scen, i, s.raw[:100], sc.describe_tree(tree), sc.describe_tree(kill_states[i])))
         else:
             st.count('kill_states_matching_model')
+        fu = v.get('followup')
+        if fu is not None:
+            st.count('followup_operations_after_crash')
+            st.case('%s/followup/%d' % (scen, i), True)
+            if fu.get('problems'):
+                st.violate('c08:operation-after-crash:%s:%s' % (scenario_class(scen), problem_class(fu)),
+                           'after a process kill on entry to "%s" (permitted residue in the work area), the auxiliary lines of the user were shortened and the same operation was run again to completion: %s' % (s.raw[:120], '; '.join(fu['problems'])[:400]),
+                           '%s/followup/%d' % (scen, i), {'scenario': scen, 'killed_at': s.raw[:300], 'state_after_followup': fu.get('state'), 'problems': fu['problems'], 'result': fu.get('result')})
         if v.get('problems'):
             st.violate('c08:process-kill:%s:%s' % (scenario_class(scen), problem_class(v)),
                        'process killed on entry to "%s": %s' % (s.raw[:160], '; '.join(v['problems'])[:400]),
@@ -271,6 +281,42 @@ def crash_scenario(st, scen, mode):
                'syscalls': descs[:14]})
     shutil.rmtree(os.path.join(st.work, scen), ignore_errors=True)
     return final_states
+
+
+def followup_after_crash(st, scen, kd):
+    """The crashed directory is used again: another tool shortens the user's auxiliary lines, then the same operation
+    runs to completion. The result must be the complete new record with exactly the current auxiliary bytes
+    (a stale work-area file must never leak into it)."""
+    base = os.path.join(kd, 'base')
+    for fn in os.listdir(base):
+        if fn.split('.')[0] in ('alice', 'carol') and fn.endswith(('.user', '.admin')):
+            p = os.path.join(base, fn)
+            data = open(p, 'rb').read()
+            i = data.find(b'\n')
+            if i >= 0 and len(data) > i + 1:
+                with open(p, 'wb') as f:
+                    f.write(data[:i + 1] + b'u2f: c2hvcnQ=')   # shorter, and without a trailing newline
+    tmpl = kd + '-before-followup'
+    shutil.rmtree(tmpl, ignore_errors=True)
+    shutil.copytree(kd, tmpl, symlinks=True)
+    resf = os.path.join(kd, 'followup.json')
+    subprocess.run([st.hx, 'scdrv', scen, kd, resf], env=st.env(), stdout=subprocess.PIPE, stderr=subprocess.STDOUT)
+    res = None
+    try:
+        res = json.load(open(resf))
+        os.remove(resf)
+    except Exception:
+        pass
+    if res is None:
+        shutil.rmtree(tmpl, ignore_errors=True)
+        return {'state': 'no-result', 'problems': ['the follow-up operation produced no result'], 'result': None}
+    mode = 'acked' if res.get('result') == 'ok' else 'failed'
+    v = st.oracle(scen, tmpl, kd, mode)
+    v['result'] = res
+    if mode == 'failed':
+        v.setdefault('problems', []).append('the follow-up operation failed: %s' % res.get('error'))
+    shutil.rmtree(tmpl, ignore_errors=True)
+    return v
 
 
 def scenario_class(scen):
